@@ -798,6 +798,28 @@ func (r *runner) checkRollback(before *ledger, height int64, v func(string, ...i
 	}
 	d := setDiff(real, spec)
 	if d == "" {
+		// "... become unconfirmed again with their credits intact"
+		for _, t := range r.jled.pool {
+			want := r.jled.details(t.hash)
+			got, err := r.details(t.hash)
+			if err != nil || got == nil || want == nil {
+				v("C02 key=rollback.details: after Rollback(%d) TxDetails(%s) is missing or fails", height, h12(t.hash))
+				continue
+			}
+			var gc []string
+			for _, c := range got.Credits {
+				gc = append(gc, fmt.Sprintf("%d:%d:%s", c.Index, int64(c.Amount), b01(c.Change)))
+			}
+			var wc []string
+			for _, c := range want.credits {
+				f := strings.Split(c, ":")
+				wc = append(wc, f[0]+":"+f[1]+":"+f[3])
+			}
+			if strings.Join(gc, ",") != strings.Join(wc, ",") || got.Block.Height != -1 {
+				v("C02 key=rollback.credits-not-intact: after Rollback(%d) transaction %s is reported at height %d with credits [%s], ledger truth: unconfirmed with [%s]",
+					height, h12(t.hash), got.Block.Height, strings.Join(gc, ","), strings.Join(wc, ","))
+			}
+		}
 		return
 	}
 	alt := before.clone()
